@@ -40,6 +40,8 @@ type Case struct {
 	Wrong     string         `json:"wrong,omitempty"` // "" | "footer" | "column"
 	Tampers   []Tamper       `json:"tampers"`
 	Seeks     []int          `json:"seeks"`
+	SkipIndex bool           `json:"skipindex,omitempty"` // reader: SkipPageIndex(true)
+	Async     bool           `json:"async,omitempty"`     // reader: asynchronous read mode
 }
 
 var leaves = []string{"string", "bytes", "int64", "flba:16", "uuid", "int32", "double", "bool"}
@@ -96,6 +98,8 @@ func genCase(t *rapid.T) Case {
 			Mask: byte(1 << uint(rapid.IntRange(0, 7).Draw(t, "tbit"))),
 		})
 	}
+	c.SkipIndex = rapid.IntRange(0, 2).Draw(t, "skipindex") == 0
+	c.Async = rapid.IntRange(0, 3).Draw(t, "async") == 0
 	ns := rapid.IntRange(0, 4).Draw(t, "nseeks")
 	for i := 0; i < ns; i++ {
 		c.Seeks = append(c.Seeks, rapid.IntRange(0, 999).Draw(t, "seek"))
@@ -244,13 +248,16 @@ func write(c Case, cols []ref.Column, rows []ref.V, cfg *parquet.EncryptionConfi
 }
 
 // readAll opens with the ring and reads every row group; returns rows so far and the first error.
+// fileOpts are the reader options of the current case (page index skipped, asynchronous pages).
+var fileOpts []parquet.FileOption
+
 func readAll(data []byte, ring parquet.KeyRetriever, cols []ref.Column) (rows []parquet.Row, err error, panicked any) {
 	defer func() {
 		if r := recover(); r != nil {
 			panicked = r
 		}
 	}()
-	f, err := parquet.OpenFile(bytes.NewReader(data), int64(len(data)), parquet.WithDecryption(ring))
+	f, err := parquet.OpenFile(bytes.NewReader(data), int64(len(data)), append([]parquet.FileOption{parquet.WithDecryption(ring)}, fileOpts...)...)
 	if err != nil {
 		return nil, err, nil
 	}
@@ -299,6 +306,14 @@ func prefixDiff(cols []ref.Column, want [][][]ref.LV, got []parquet.Row) string 
 }
 
 func runCase(c Case, o *kit.Obs) *kit.Failure {
+	fileOpts = nil
+	if c.SkipIndex {
+		fileOpts = append(fileOpts, parquet.SkipPageIndex(true))
+	}
+	if c.Async {
+		fileOpts = append(fileOpts, parquet.FileReadMode(parquet.ReadModeAsync))
+	}
+	defer func() { fileOpts = nil }()
 	cols := ref.Columns(&c.Schema)
 	rows, markers := markRows(c, cols, c.Plan.ExpandWith(&c.Schema))
 	cfg, ring, rk := c.config(cols)
@@ -326,7 +341,7 @@ func runCase(c Case, o *kit.Obs) *kit.Failure {
 		return kit.Failf("c18/roundtrip-differs"+feat, "%d of %d rows, %s", len(got), len(want), d)
 	}
 	if len(c.Seeks) > 0 && len(want) > 0 {
-		f, err := parquet.OpenFile(bytes.NewReader(data), int64(len(data)), parquet.WithDecryption(ring))
+		f, err := parquet.OpenFile(bytes.NewReader(data), int64(len(data)), append([]parquet.FileOption{parquet.WithDecryption(ring)}, fileOpts...)...)
 		if err != nil {
 			return kit.Failf("c18/roundtrip-error"+feat, "%v", err)
 		}
@@ -534,6 +549,8 @@ func runCase(c Case, o *kit.Obs) *kit.Failure {
 	}
 	o.Class("footer-" + map[bool]string{true: "encrypted", false: "plaintext"}[c.EncFooter])
 	o.ClassIf(len(c.ColKeys) > 0, "column-keys")
+	o.ClassIf(c.SkipIndex, "reader-without-page-index")
+	o.ClassIf(c.Async, "reader-async")
 	o.ClassIf(len(ef.RowGroups) >= 2, "multi-rowgroup")
 	if os.Getenv("VERIF_DEBUG") != "" && len(rows) > 2000 {
 		fmt.Println("DEBUG rows", len(rows), "rowgroups", len(ef.RowGroups), "maxPages", maxPages, "pagebuf", c.Opts.PageBuf)
